@@ -28,7 +28,7 @@ impl Tables {
     pub fn new(map: usize) -> Tables {
         let keys: [&str; 3] = match map { 0 => ["Package", "Depends", "X-New"], 1 => ["a", "~b#c", "Zz-9"], _ => ["Pkg", "pkg", "PKG"] };   // (names that differ by case only: names are compared exactly)
         let vals: [&str; 6] = match map {
-            0 => ["one", "two,", "three", "four", "five,", "six"],
+            0 => ["Depends", "two,", "X-New", "four", "five,", "Package"],   // (values 1, 3, 6 ARE the names of fields 2, 3, 1: a value is never mistaken for a name)
             1 => ["#hash first", "é日 :", ":colon x", "x: y # z", "-dash  ", "tab\there"],
             _ => ["v4  ", "a b", "😀", "v4", "#v5", "~"],   // (value 1 = value 4 + trailing blanks: a set that changes trailing blanks only)
         };
